@@ -341,7 +341,7 @@ def gen_step(rng, snap, prof):
 
 
 CFG_VALUES = [b"Al Bo", b"a=b c", b"[x]", b"# hash", b'"quoted"', "Jürgen".encode(), b"x", b"a = b",
-              b"v1", b"two  spaces"[:3], b"e@x.yy", b"first.last+tag@sub.example.org"]
+              b"v1", b"two  spaces"[:3], b"e@x.yy", b"first.last+tag@sub.example.org", b"Ann 100% Lee", b"50%", b"%s %d%%"]
 
 
 def gen_config(rng, prof):
